@@ -227,6 +227,89 @@ def fmt_widths(fmt):
     return (little, out)
 
 
+def probe_method(fn, make_self):
+    """Evaluate a small, self-contained method SEMANTICALLY: compile the FunctionDef alone (no imports, no spsdk), call it with a stub
+    `self`.  Returns a callable(args) -> (result, self) or None if the body needs anything but builtins.  Used so that constants such
+    as flag bit positions survive behaviour-preserving rewrites of the source (`1 << 31` -> `0x80000000`, `x << 8` -> `x * 256`)."""
+    if fn is None:
+        return None
+    try:
+        mod = ast.Module(body=[copy.deepcopy(fn)], type_ignores=[])
+        for d in mod.body:
+            d.decorator_list = []
+            d.returns = None
+            for a in d.args.args + d.args.kwonlyargs:
+                a.annotation = None
+        ast.fix_missing_locations(mod)
+        ns = {"__builtins__": {"len": len, "bool": bool, "int": int, "True": True, "False": False, "None": None, "isinstance": isinstance,
+                               "Exception": Exception, "ValueError": ValueError}}
+
+        class _Err(Exception):
+            pass
+        ns["SPSDKError"] = _Err
+        exec(compile(mod, "<probe>", "exec"), ns)  # noqa: S102  (the extracted function body only; stub globals)
+        f = ns[fn.name]
+
+        def call(*a, **kw):
+            obj = make_self(*a, **kw)
+            return f(obj), obj
+        return call
+    except Exception:  # noqa: BLE001
+        return None
+
+
+def _log2_exact(v):
+    return v.bit_length() - 1 if isinstance(v, int) and v > 0 and v & (v - 1) == 0 else BAD
+
+
+def probe_rkr_flags(cf):
+    """(caBit, usedShift, countShift, [(bit, [curve names])]) of RootKeyRecord._calculate_flags by probing, or None"""
+    from types import SimpleNamespace as NS
+    call = probe_method(cf, lambda ca, used, n, curve: NS(ca_flag=ca, used_root_cert=used, root_certs=[NS(curve=curve)] * n))
+    if call is None:
+        return None
+    try:
+        base = call(False, 0, 1, "none")[0]
+        ca = _log2_exact(call(True, 0, 1, "none")[0] - base)
+        used = _log2_exact(call(False, 1, 1, "none")[0] - base)
+        cnt = _log2_exact(call(False, 0, 2, "none")[0] - base)
+        names = sorted({c.value for c in ast.walk(cf) if isinstance(c, ast.Constant) and isinstance(c.value, str) and len(c.value) < 16},
+                       key=lambda x: x)
+        by_bit = {}
+        for nm in names:
+            dv = call(False, 0, 1, nm)[0] - base
+            if dv:
+                by_bit.setdefault(_log2_exact(dv), []).append(nm)
+        # linearity check on a few more points (the probe must describe the function, not two samples of it)
+        for u in (0, 3, 15):
+            for n in (1, 4):
+                if call(True, u, n, "none")[0] != (1 << ca) | (u << used) | (n << cnt):
+                    return None
+        return ca, used, cnt, sorted(by_bit.items())
+    except Exception:  # noqa: BLE001
+        return None
+
+
+def probe_isk_flags(cf):
+    """(userDataBit, [(bit, curve name)]) of IskCertificate._calculate_flags by probing, or None"""
+    from types import SimpleNamespace as NS
+    call = probe_method(cf, lambda ud, curve: NS(flags=0, user_data=ud, isk_cert=NS(curve=curve)))
+    if call is None:
+        return None
+    try:
+        base = call(b"", "none")[1].flags
+        udb = _log2_exact(call(b"x", "none")[1].flags - base)
+        names = sorted({c.value for c in ast.walk(cf) if isinstance(c, ast.Constant) and isinstance(c.value, str) and len(c.value) < 16})
+        curves = []
+        for nm in names:
+            dv = call(b"", nm)[1].flags - base
+            if dv:
+                curves.append((_log2_exact(dv), nm))
+        return udb, sorted(curves)
+    except Exception:  # noqa: BLE001
+        return None
+
+
 # ----------------------------------------------------------------------------------------------- database
 def deep_update(d, u):
     for k, v in u.items():
@@ -432,15 +515,21 @@ def gen_RotTypes():
 
     rkr = _cls(t, "RootKeyRecord")
     cf = _fun(rkr, "_calculate_flags")
-    d("rkrCaBit", "Nat", nat(if_bit(cf, "ca_flag")))
-    d("rkrUsedShift", "Nat", nat(shift_of(cf, "used_root_cert")))
-    d("rkrCountShift", "Nat", nat(shift_of(cf, "len(self.root_certs)")))
-    names0, names1 = if_strings(cf, "curve", 0), if_strings(cf, "curve", 1)
-    bits = [k for txt, k in shifts_in(cf) if txt == "1"]
-    # the two curve `if`s are the last two `1 << k` of the function
+    pr = probe_rkr_flags(cf)
+    meta["rkr_flags_mode"] = "probed (semantic)" if pr else "syntactic fallback"
+    if pr:
+        ca_b, used_s, cnt_s, curve_bits = pr
+    else:
+        ca_b, used_s, cnt_s = if_bit(cf, "ca_flag"), shift_of(cf, "used_root_cert"), shift_of(cf, "len(self.root_certs)")
+        names0, names1 = if_strings(cf, "curve", 0), if_strings(cf, "curve", 1)
+        bits = [k for txt, k in shifts_in(cf) if txt == "1"]
+        curve_bits = list(zip(bits[-2:], (sorted(names0), sorted(names1))))     # the two curve `if`s are the last two `1 << k`
+    d("rkrCaBit", "Nat", nat(ca_b))
+    d("rkrUsedShift", "Nat", nat(used_s))
+    d("rkrCountShift", "Nat", nat(cnt_s))
     d("rkrCurveBits", "List (Nat × List String)",
-      "[" + ", ".join(f"({nat(b)}, [" + ", ".join(lstr(s) for s in ns) + "])" for b, ns in zip(bits[-2:], (names0, names1))) + "]",
-      "`if self.root_certs[0].curve in [...]: flags |= 1 << k`")
+      "[" + ", ".join(f"({nat(b)}, [" + ", ".join(lstr(s) for s in ns) + "])" for b, ns in curve_bits) + "]",
+      "curve names that set flag bit k in `RootKeyRecord._calculate_flags` (names sorted)")
     pf = _fun(rkr, "parse")
     m, s = mask_shift(pf, "ca_flag")
     d("rkrParseCaMask", "Nat", nat(m))
@@ -470,9 +559,12 @@ def gen_RotTypes():
 
     isk = _cls(t, "IskCertificate")
     cf = _fun(isk, "_calculate_flags")
-    d("iskUserDataBit", "Nat", nat(if_bit(cf, "user_data")))
+    pi = probe_isk_flags(cf)
+    meta["isk_flags_mode"] = "probed (semantic)" if pi else "syntactic fallback"
+    ud_bit, isk_curves = pi if pi else (if_bit(cf, "user_data"), _isk_curves(cf))
+    d("iskUserDataBit", "Nat", nat(ud_bit))
     d("iskCurveBits", "List (Nat × String)",
-      "[" + ", ".join(f"({nat(if_bit_curve)}, {lstr(nm)})" for if_bit_curve, nm in _isk_curves(cf)) + "]")
+      "[" + ", ".join(f"({nat(b)}, {lstr(nm)})" for b, nm in isk_curves) + "]")
     pf = _fun(isk, "parse")
     magic = sigoff = BAD
     if pf:
@@ -494,6 +586,17 @@ def gen_RotTypes():
     pat("iskSignedLayoutWithOffset", "data = key_record_data + pack('<3L', self.signature_offset, self.constraints, self.flags)" in src
       and "data += self.isk_public_key_data + self.user_data" in src)
     pat("iskSignedLayoutNoOffset", "data = key_record_data + pack('<2L', self.constraints, self.flags)" in src)
+
+    # ---------------- IskCertificateLite / CertBlockVx (MC56)
+    d("liteMagic", "Nat", nat(lit(class_attr(t, "IskCertificateLite", "MAGIC"))))
+    d("liteVersion", "Nat", nat(lit(class_attr(t, "IskCertificateLite", "VERSION"))))
+    fmt = lit(class_attr(t, "IskCertificateLite", "HEADER_FORMAT"), "")
+    d("liteHeaderFormat", "String", lstr(fmt))
+    d("liteHeaderWidths", "List Nat", lnats(fmt_widths(fmt)[1]))
+    d("litePubKeyLength", "Nat", nat(lit(class_attr(t, "IskCertificateLite", "ISK_PUB_KEY_LENGTH"))))
+    d("liteSignatureSize", "Nat", nat(lit(class_attr(t, "IskCertificateLite", "ISK_SIGNATURE_SIZE"))))
+    d("liteSignatureOffset", "Nat", nat(lit(class_attr(t, "IskCertificateLite", "SIGNATURE_OFFSET"))))
+    d("vxCertHashLength", "Nat", nat(lit(class_attr(t, "CertBlockVx", "ISK_CERT_HASH_LENGTH"))))
 
     # ---------------- AHAB
     t = parse(AHD)
